@@ -421,10 +421,21 @@ def _run_otfad_low(ctx, lay, sigextra=()):
     mask, align = lay.get("scramble", [None, None])
     otfad = Otfad(reversed_scramble_key=lay["reversed"])
     kbs = []
-    for b in lay["blobs"]:
+    # a quarter of the objects have a HISTORY: they hold other contexts first and encrypt something with them, then every
+    # context is replaced by item assignment (how OtfadNxp.load_from_config fills them); what counts is the present state
+    history = rng.random() < 0.25
+    if history:
+        ctx.count("otfad_context_histories")
+        for b in lay["blobs"]:
+            otfad.add_key_blob(KeyBlob(b["start"], b["end"], key=_gen_key(rng, 16), counter_iv=_gen_key(rng, 8), key_flags=b["flags"] | 3))
+        otfad.encrypt_image(bytes(range(256)) * 8, lay["blobs"][0]["start"] & ~0x3FF, bs)
+    for i, b in enumerate(lay["blobs"]):
         kb = KeyBlob(b["start"], b["end"], key=bytes.fromhex(b["key"]), counter_iv=bytes.fromhex(b["ctr"]), key_flags=b["flags"],
                      zero_fill=core.pick(rng, [None, bytes(4), b"\x01\x02\x03\x04"]))
-        otfad.add_key_blob(kb)
+        if history:
+            otfad[i] = kb
+        else:
+            otfad.add_key_blob(kb)
         kbs.append(kb)
     detail = {"base": hex(base), "len": length, "byte_swap": bs,
               "blobs": [[hex(b["start"]), hex(b["end"]), b["flags"]] for b in lay["blobs"]]}
@@ -725,7 +736,7 @@ def _bee_layout(rng, tier, aligned=None, small=False):
     return {"base": base, "len": length, "engines": out, "cov": cov, "sel": sel}
 
 
-def _bee_headers(lay):
+def _bee_headers(lay, history=False):
     from spsdk.image.bee import BeeFacRegion, BeeKIB, BeeProtectRegionBlock, BeeProtectRegionBlockAesMode, BeeRegionHeader
 
     hdrs = []
@@ -735,8 +746,10 @@ def _bee_headers(lay):
             continue
         prdb = BeeProtectRegionBlock(BeeProtectRegionBlockAesMode.CTR, e["lock"], bytes.fromhex(e["counter"]) if e["counter"] else None)
         h = BeeRegionHeader(prdb, bytes.fromhex(e["user_key"]), BeeKIB(bytes.fromhex(e["kib_key"]), bytes.fromhex(e["kib_iv"])))
-        for s, ln, lvl in e["facs"]:
+        for i, (s, ln, lvl) in enumerate(e["facs"]):
             h.add_fac(BeeFacRegion(s, ln, lvl))
+            if history and i + 1 < len(e["facs"]):
+                h.export()  # the header was written out (or came from a file) before the later regions were added
         hdrs.append(h)
     return hdrs
 
@@ -813,9 +826,22 @@ def _run_bee_low(ctx, lay, sigextra=()):
     seen: set = set()
     base, length = lay["base"], lay["len"]
     image = _gen_image(rng, length)
-    hdrs = _bee_headers(lay)
+    # a third of the header objects have a history (written out between two add_fac calls), and the image is asked for
+    # BEFORE the headers (the order `nxpimage bee export` uses): the data must be encrypted for the regions the object holds
+    # NOW, i.e. for the regions the headers exported afterwards list
+    history = rng.random() < 0.33
+    hdrs = _bee_headers(lay, history)
     detail = {"base": hex(base), "len": length,
               "facs": [[i, hex(s), hex(s + ln)] for i, e in enumerate(lay["engines"]) if e for s, ln, _ in e["facs"]]}
+    early = None
+    if history:
+        ctx.count("bee_header_histories")
+        try:
+            early = BeeNxp(hdrs, image, base).export_image()
+        except Exception as e:  # pylint: disable=broad-except
+            if not core.is_refusal(e) and core.origin_of(e) != "repo":
+                raise
+            early = None
     exported = BeeNxp(hdrs, image, base).export_headers()
     ctxs = []
     for i, (h, raw) in enumerate(zip(hdrs, exported)):
@@ -843,6 +869,8 @@ def _run_bee_low(ctx, lay, sigextra=()):
         ok = _bee_judge_image(ctx, seen, ctxs, base, image, enc, "BeeNxp.export_image", detail)
         if length % 16 == 0 and BeeNxp(hdrs, image, base).export_image() != enc:
             _emit_once(ctx, seen, "bee-export-image-not-repeatable", detail)
+        if early is not None and early[:length // 16 * 16] != enc[:length // 16 * 16]:
+            _emit_once(ctx, seen, "bee-image-exported-before-the-headers-differs-from-the-one-after", detail)
         # the SAME object asked twice: the result depends only on (keys, absolute address, plaintext), not on what the
         # object did before (the last partial block is padded with random bytes: compared over whole blocks only)
         same = BeeNxp(hdrs, image, base)
